@@ -1,5 +1,5 @@
 /- Driver ops for C12. -/
-import Driver.Json
+import Driver.Loop
 
 open Lean Model
 
@@ -8,3 +8,5 @@ namespace Driver.C12
 def ops : List (String × Op) := []
 
 end Driver.C12
+
+def main : IO Unit := Driver.runLoop Driver.C12.ops
